@@ -18,6 +18,15 @@
 #include "connection_set.hpp"
 
 
+#ifdef TRROUTING_VERIF
+// Verification hook (add-only, compiled out by default): lets an external
+// harness force thread interleavings around the scenario connection cache.
+extern "C" void trrouting_verif_point(const char *where);
+#define TRROUTING_VERIF_POINT(where) trrouting_verif_point(where)
+#else
+#define TRROUTING_VERIF_POINT(where) do {} while (0)
+#endif
+
 namespace TrRouting {
 
   TransitData::TransitData(DataFetcher& fetcher, bool cacheAllScenarios) :
@@ -345,8 +354,10 @@ namespace TrRouting {
   std::shared_ptr<ConnectionSet> TransitData::getConnectionsForScenario(const Scenario & scenario) const {
     std::optional<std::shared_ptr<ConnectionSet>> optCurrentCache = scenarioConnectionCache->get(scenario.uuid);
     if (optCurrentCache.has_value()) {
+      TRROUTING_VERIF_POINT("hit");
       return optCurrentCache.value();
     }
+    TRROUTING_VERIF_POINT("miss");
 
     spdlog::debug("Computing connection cache for scenario {}...", boost::uuids::to_string(scenario.uuid));
     // Create the cache for scenario
@@ -466,7 +477,9 @@ namespace TrRouting {
     }
 
     std::shared_ptr<ConnectionSet> currentCache = std::make_shared<ConnectionSet>(cachedTrips, scenarioForwardConnections, scenarioReverseConnections);
+    TRROUTING_VERIF_POINT("before-set");
     scenarioConnectionCache->set(scenario.uuid, currentCache);
+    TRROUTING_VERIF_POINT("after-set");
     return currentCache;
     
   }
